@@ -208,8 +208,27 @@ def _spy_classes():
             _log_predict('predict', self.role, X, held)
             return SuperLearner.predict(self, X)
 
+    class FunctionalSpy(Spy):
+        """a learner in the statsmodels style: fit() returns a NEW fitted object and leaves the receiver as it was.  The object
+        handed to the estimator has been tried out on the full data beforehand (it carries a fit on every row), so a library that
+        keeps the receiver instead of what fit() returned predicts every row with a model trained on that row"""
+        def fit(self, X, y):
+            ids = [int(v) for v in X[:, 0]]
+            _rec_x(X)
+            _log_fit(self.role, ids)
+            new = type(self)(self.role)
+            new.state_ = {'ids': ids, 'mu': _mu(y)}
+            return new
+
+    class FunctionalSpyProba(FunctionalSpy):
+        predict_proba = SpyProba.predict_proba
+
     def make(kind, role, proba):
         """-> (learner object, function telling whether the ORIGINAL object was fitted)"""
+        if kind == 'functional':
+            o = (FunctionalSpyProba if proba else FunctionalSpy)(role)
+            o.state_ = {'ids': list(range(1000, 4000)), 'mu': 0.5}      # the analyst's own earlier fit on all rows (row ids start at 1000)
+            return o, (lambda: False)
         if kind == 'core':
             o = (CoreSpyProba if proba else CoreSpy)(role)
             return o, (lambda: o.core.state is not None)
@@ -428,7 +447,7 @@ def gen_specs(ctx):
              'dseed': rng.randint(0, 2 ** 31 - 1), 'outcome': rng.choice(['binary', 'binary', 'continuous']),
              'proba': rng.random() < 0.6, 'index': rng.choice(['range', 'range', 'shift', 'dup', 'str']),
              'nmiss': rng.choice([0, 0, 0, 1, 3, 5]),
-             'learner': rng.choice(['plain', 'plain', 'warm', 'warm', 'core', 'core', 'core', 'pipeline', 'pipeline', 'sl', 'sl'])}
+             'learner': rng.choice(['plain', 'plain', 'warm', 'warm', 'core', 'core', 'core', 'pipeline', 'pipeline', 'sl', 'sl', 'functional', 'functional'])}
         if s['learner'] == 'sl' and n // k < 6:      # SuperLearner's inner 2-fold CV needs a few rows per part
             s['learner'] = 'core'
         kmin = 3 if is_double(cls) else 2
